@@ -148,8 +148,10 @@ def random_arch(rng: random.Random, *, dim: int, max_nodes: int, widths=(2, 3, 4
         fresh = [t for t in T if t not in used]
         pick = lambda cand: rng.choice([t for t in cand if t in fresh] or cand)
         kind = rng.choices(["conv", "dw", "lin", "relu", "pool", "flat", "add", "cat", "catt", "reuse"],
-                           weights=[6, 2, 3 if fl else 0, 3, 1, 1.5 if nf else 0, 2, 2, 0.7 if dim == 1 else 0,
+                           weights=[6, 2, 3 if fl else 0, 3, 1, 1.5 if nf else 0, 2, 2, 0.7,
                                     0.8 if reuse else 0])[0]
+        if kind == "catt" and dim == 2 and rng.random() < 0.5:
+            kind = "relu"
         if kind == "conv" and nf:
             k = rng.choice(kernels) if dim == 1 else rng.choice([1, 3])
             s = rng.choice([1, 1, 1, 2]) if strided else 1
@@ -185,11 +187,11 @@ def random_arch(rng: random.Random, *, dim: int, max_nodes: int, widths=(2, 3, 4
         elif kind == "relu" and len(T) > 1:
             nodes.append({"op": "relu", "ins": [pick(T[1:])]})
         elif kind == "pool":
-            c = [t for t in nf if t != 0 and sh[t]["sp"] >= 2]
+            c = [t for t in nf if t != 0 and sh[t]["sp"] >= 2 and (dim == 1 or sh[t]["spw"] >= 2)]
             if c:
                 nodes.append({"op": "pool", "ins": [pick(c)], "kind": rng.choice(["avg", "max"])})
         elif kind == "flat" and nf:
-            c = [t for t in nf if sh[t]["ch"] * sh[t]["sp"] ** dim <= 64]
+            c = [t for t in nf if sh[t]["ch"] * sh[t]["sp"] * sh[t]["spw"] <= 64]
             if c and dim == 1 and rng.random() < 0.3 and [t for t in c if t != 0]:
                 nodes.append({"op": "gsq", "ins": [pick([t for t in c if t != 0])], "d": rng.choice([2, -1])})
             elif c:
@@ -197,20 +199,20 @@ def random_arch(rng: random.Random, *, dim: int, max_nodes: int, widths=(2, 3, 4
         elif kind in ("add", "catt"):
             pairs = [(p, q) for p in T for q in T if p != q and sh[p] == sh[q] and (kind == "add" or not sh[p]["flat"])]
             if kind == "catt":
-                pairs = [(p, q) for p in T for q in T if p != q and sh[p]["ch"] == sh[q]["ch"]
-                         and not sh[p]["flat"] and not sh[q]["flat"]]
+                pairs = [(p, q) for p in T for q in T if p != q and sh[p]["ch"] == sh[q]["ch"] and sh[p]["spw"] == sh[q]["spw"]
+                         and not sh[p]["flat"] and not sh[q]["flat"] and sh[p]["sp"] + sh[q]["sp"] <= 12]
             if pairs:
                 p, q = rng.choice(pairs)
-                nodes.append({"op": kind, "ins": [p, q]})
+                nodes.append({"op": kind, "ins": [p, q], "d": rng.choice([1, -1])})
         elif kind == "cat":
-            pairs = [(p, q) for p in T for q in T if p != q and sh[p]["sp"] == sh[q]["sp"] and sh[p]["flat"] == sh[q]["flat"]
-                     and sh[p]["ch"] + sh[q]["ch"] <= 16]
+            pairs = [(p, q) for p in T for q in T if p != q and sh[p]["sp"] == sh[q]["sp"] and sh[p]["spw"] == sh[q]["spw"]
+                     and sh[p]["flat"] == sh[q]["flat"] and sh[p]["ch"] + sh[q]["ch"] <= 16]
             if pairs:
                 p, q = rng.choice(pairs)
                 ins = [p, q]
                 if rng.random() < 0.25:
-                    third = [t for t in T if t not in ins and sh[t]["sp"] == sh[p]["sp"] and sh[t]["flat"] == sh[p]["flat"]
-                             and sh[t]["ch"] <= 6]
+                    third = [t for t in T if t not in ins and sh[t]["sp"] == sh[p]["sp"] and sh[t]["spw"] == sh[p]["spw"]
+                             and sh[t]["flat"] == sh[p]["flat"] and sh[t]["ch"] <= 6]
                     if third:
                         ins.append(rng.choice(third))
                 nodes.append({"op": "cat", "ins": ins})
@@ -227,7 +229,7 @@ def random_arch(rng: random.Random, *, dim: int, max_nodes: int, widths=(2, 3, 4
         last = len(sh) - 1
         if sh[t] == sh[last]:
             a["nodes"].append({"op": "add", "ins": [t, last]})
-        elif sh[t]["sp"] == sh[last]["sp"] and sh[t]["flat"] == sh[last]["flat"]:
+        elif sh[t]["sp"] == sh[last]["sp"] and sh[t]["spw"] == sh[last]["spw"] and sh[t]["flat"] == sh[last]["flat"]:
             a["nodes"].append({"op": "cat", "ins": [last, t]})
         elif not sh[t]["flat"] and not sh[last]["flat"]:
             # bring both to flat and concatenate
